@@ -93,6 +93,17 @@ func (fr *Frame) evalArgs(args []ssa.Value) []Val {
 func (fr *Frame) staticCall(t *ssa.Call, callee *ssa.Function, bindings []Val) {
 	vc := fr.vc
 	name := callee.Name()
+	if fr.isTop && fr.spec != nil && vc.spec == 0 {
+		for k, cl := range fr.spec.Clauses {
+			if cl.Kind == "assert" && cl.Callee == name {
+				if cf := vc.clauseFn(cl); cf != nil {
+					r := vc.evalSpec(cf, fr.argVals, fr.st, fr.old)
+					vc.obligeSplit("assert", fmt.Sprintf("%s#assert[%s]@%s", fr.fname(), clauseLabel(cl, k), vc.srcLine(t.Pos())), fr.live, r.T, cl)
+					vc.assume(implies(fr.live, r.T))
+				}
+			}
+		}
+	}
 	if callee.Origin() != nil {
 		name = callee.Origin().Name()
 	}
@@ -109,6 +120,27 @@ func (fr *Frame) staticCall(t *ssa.Call, callee *ssa.Function, bindings []Val) {
 			fr.vals[t] = Val{T: fr.quantifier(name == "__forall", args[0])}
 			return
 		case name == "__trigger":
+			// the arguments arrive packed in a []any built from MakeInterface values
+			var pats []string
+			if sl, ok := t.Common().Args[0].(*ssa.Slice); ok {
+				if alloc, ok := sl.X.(*ssa.Alloc); ok {
+					for _, r := range *alloc.Referrers() {
+						if ia, ok := r.(*ssa.IndexAddr); ok {
+							for _, rr := range *ia.Referrers() {
+								if st, ok := rr.(*ssa.Store); ok {
+									if mi, ok := st.Val.(*ssa.MakeInterface); ok {
+										pats = append(pats, fr.val(mi.X).T.S)
+									}
+								}
+							}
+						}
+					}
+				}
+			}
+			if len(pats) > 0 && len(vc.trigStack) > 0 {
+				top := len(vc.trigStack) - 1
+				vc.trigStack[top] = append(vc.trigStack[top], "("+strings.Join(pats, " ")+")")
+			}
 			fr.vals[t] = Val{T: tTrue}
 			return
 		case name == "__same":
@@ -400,7 +432,10 @@ func (fr *Frame) quantifier(forall bool, clo Val) Term {
 		args = append(args, Val{T: Term{n, srt}})
 	}
 	vc.qdepth++
+	vc.trigStack = append(vc.trigStack, nil)
 	body := vc.evalSpecFn(fn, args, clo.Clo.bindings, fr.st, fr.old)
+	trigs := vc.trigStack[len(vc.trigStack)-1]
+	vc.trigStack = vc.trigStack[:len(vc.trigStack)-1]
 	vc.qdepth--
 	// a single 8-bit bound variable ranges over 256 values: expand into a finite conjunction or
 	// disjunction (the instances fold to small bit tests, which the solvers decide at once)
@@ -433,6 +468,14 @@ func (fr *Frame) quantifier(forall bool, clo Val) Term {
 	q := "forall"
 	if !forall {
 		q = "exists"
+	}
+	if len(trigs) > 0 {
+		var sb strings.Builder
+		for _, p := range trigs {
+			sb.WriteString(" :pattern ")
+			sb.WriteString(p)
+		}
+		return Term{fmt.Sprintf("(%s (%s) (! %s%s))", q, strings.Join(bound, " "), body.T.S, sb.String()), SBool}
 	}
 	return Term{fmt.Sprintf("(%s (%s) %s)", q, strings.Join(bound, " "), body.T.S), SBool}
 }
@@ -625,7 +668,9 @@ func (fr *Frame) contractCall(t *ssa.Call, callee *ssa.Function, fs *FuncSpec, a
 			continue
 		}
 		r := vc.evalSpec(cf, args, pre, pre)
-		vc.oblige("pre", fmt.Sprintf("%s[%s]@%s", site, clauseLabel(cl, k), vc.srcLine(t.Pos())), fr.live, r.T, t.Pos())
+		if vc.spec == 0 {
+			vc.obligeSplit("pre", fmt.Sprintf("%s[%s]@%s", site, clauseLabel(cl, k), vc.srcLine(t.Pos())), fr.live, r.T, cl)
+		}
 		vc.assume(implies(fr.live, r.T))
 	}
 	// 2. panics
@@ -1244,7 +1289,7 @@ func (fr *Frame) appendVals(s Term, elem types.Type, vals []Term, name string) T
 	n := bvLit(uint64(len(vals)), 64)
 	newLen := vc.name("applen", app(bv, "bvadd", slen(s), n))
 	inplace := vc.name("inplace", app(SBool, "bvule", newLen, scap(s)))
-	fresh := vc.newAlloc(fr.st, true)
+	fresh := vc.newAllocSlice(fr.st, elem)
 	vc.markFresh(elem)
 	newCap := vc.freshConst("appcap", bv)
 	vc.assume(and(app(SBool, "bvule", newLen, newCap), app(SBool, "bvule", newCap, Term{"#x0000010000000000", bv})))
@@ -1377,7 +1422,7 @@ func (fr *Frame) appendBuiltin(t *ssa.Call) {
 	bv := bvSort(64)
 	newLen := vc.name("applen", app(bv, "bvadd", slen(s), n))
 	inplace := vc.name("inplace", app(SBool, "bvule", newLen, scap(s)))
-	fresh := vc.newAlloc(fr.st, true)
+	fresh := vc.newAllocSlice(fr.st, st.Elem())
 	vc.markFresh(st.Elem())
 	newCap := vc.freshConst("appcap", bv)
 	vc.assume(and(app(SBool, "bvule", newLen, newCap), app(SBool, "bvule", newCap, Term{"#x0000010000000000", bv})))
